@@ -597,6 +597,34 @@ class FakeResult:
         return self._counts
 
 
+def make_result(circs, counts_list, form="int"):
+    """A genuine qiskit Result for the given circuits: one experiment per circuit with that circuit's classical-register header, so that qiskit itself
+    formats the count keys (blanks between registers).  counts_list[i]: {clbit string (blanks ignored): count}.  form: how the numbers are held -
+    int (shots), float (the exact distribution as probabilities: count / 1024, exactly representable), np (numpy integers).
+    Falls back to the duck-typed FakeResult when qiskit refuses the construction."""
+    import numpy as np
+    try:
+        from qiskit.result import Result
+        exps = []
+        for qc, cd in zip(circs, counts_list):
+            ncl = qc.num_clbits
+            cregs = [[r.name, r.size] for r in qc.cregs]
+            if sum(s for _, s in cregs) != ncl:
+                cregs = [["c", ncl]]
+            data = {}
+            for k, v in cd.items():
+                hk = hex(int(k.replace(" ", ""), 2))
+                val = v / 1024 if form == "float" else (np.int64(v) if form == "np" else int(v))
+                data[hk] = data.get(hk, 0) + val
+            exps.append({"shots": int(sum(cd.values())), "success": True, "data": {"counts": data},
+                         "header": {"creg_sizes": cregs, "memory_slots": ncl, "name": qc.name}})
+        return Result.from_dict({"backend_name": "hv", "backend_version": "0", "job_id": "0", "success": True, "results": exps})
+    except Exception:
+        conv = (lambda v: v / 1024) if form == "float" else ((lambda v: np.int64(v)) if form == "np" else int)
+        cl = [{k: conv(v) for k, v in cd.items()} for cd in counts_list]
+        return FakeResult(cl if len(cl) > 1 else cl[0])
+
+
 def meas_layout(qc):
     """the measurement layout of a delivered circuit, read from the circuit itself: [(qubit, clbit)], number of clbits, classical register sizes"""
     pairs = []
@@ -710,7 +738,8 @@ def tomo_phase_b(job):
         circs = _tomo_build(job, 0)
         counts = [device_counts(qc, cq, job["N"]) for qc, cq in zip(circs, job["counts"])]     # the spec's statistics as the device reports them for these circuits
         full = bool(job["full"])
-        res = FakeResult(counts if len(counts) > 1 else counts[0])
+        cform = job.get("countform", "int")          # shots / probabilities / numpy integers
+        res = make_result(circs, counts, cform)
         if job["kind"] == "full":
             fitter = T.FullStateTomographyFitter(res, circs)
         else:
@@ -721,7 +750,7 @@ def tomo_phase_b(job):
         out["values_other"] = _entries(fitter.expectation_values(full_hilbert_space=not full))
         out["values_again"] = _entries(fitter.expectation_values(full_hilbert_space=full))
         for i, qc in enumerate(circs):
-            f = T.StabilizerMeasurementFitter(FakeResult(counts), qc, result_index=i) if len(counts) > 1 else T.StabilizerMeasurementFitter(FakeResult(counts[0]), qc)
+            f = T.StabilizerMeasurementFitter(make_result(circs, counts, cform), qc, result_index=i) if len(counts) > 1 else T.StabilizerMeasurementFitter(make_result([qc], [counts[0]], cform), qc)
             out["per_circuit"].append(_entries(f.expectation_values(full_hilbert_space=full)))
             out["ro"].append(readout_part(qc, len(impl.gates_of(impl.circuit_from_gates(job["N"], job["comps"][0][1]))), job["list"], job["N"]))
         # the only floating point step: rho = 2^-n sum <P> P (cross-checked numerically, outside the spec)
@@ -749,7 +778,7 @@ def fitter_counts(job):
         j = dict(job, comps=[[1, job.get("prep", [])]])
         circs = _tomo_build(j, 0)
         qc = circs[job["index"] % len(circs)]
-        f = T.StabilizerMeasurementFitter(FakeResult(device_counts(qc, job["counts"], job["N"])), qc)
+        f = T.StabilizerMeasurementFitter(make_result([qc], [device_counts(qc, job["counts"], job["N"])], job.get("countform", "int")), qc)
         rec["values"] = _entries(f.expectation_values(full_hilbert_space=bool(job["full"])))
         rec["ro"] = readout_part(qc, len(impl.gates_of(impl.circuit_from_gates(job["N"], job.get("prep", [])))), job["list"], job["N"])
     except Exception as e:
